@@ -295,10 +295,17 @@ Definition judge (p : str) (sfx : option str) (rules : list rule) (expires : lis
       | Some r =>
         if (rs_status r =? 304) then
           match ent with
-          | Some e => store_put (w_store w) key
-                                (mkSent (se_status e) (merge_revalidated (se_hdrs e) (rs_hdrs r)) (se_body e) now)
+          | Some e =>
+            (* a 304 whose fields forbid caching (no-store ...) ends the stored representation's life *)
+            if must_not_cache_spec strips_auth q (mkResp (se_status e) (merge_revalidated (se_hdrs e) (rs_hdrs r)) (se_body e))
+            then filter (fun p => negb (str_eqb (fst p) key)) (w_store w)
+            else store_put (w_store w) key
+                           (mkSent (se_status e) (merge_revalidated (se_hdrs e) (rs_hdrs r)) (se_body e) now)
           | None => w_store w
           end
+        else if (400 <=? rs_status r) && match ent with Some _ => true | None => false end
+                && str_eqb (hget (cobs_hdrs o) (bytes "Richie-Edge-Cache")) (bytes "stale")
+        then w_store w   (* stale-if-error: the error answer was not stored, the stale representation stays *)
         else if is_storable_status (rs_status r) && negb (must_not_cache_spec strips_auth q r)
         then store_put (w_store w) key (mkSent (rs_status r) (rs_hdrs r) (rs_body r) now)
         else w_store w
